@@ -5,8 +5,10 @@ import (
 	"encoding/json"
 	"errors"
 	"fmt"
+	"runtime"
 	"strings"
 	"sync"
+	"sync/atomic"
 	"time"
 
 	"github.com/hprose/hprose-golang/v3/io"
@@ -26,6 +28,12 @@ type c20Case struct {
 	GapsUs    []int  `json:"gaps_us"` // optional sleep before call k
 	// concurrent scenario: steps ["start",k,"O|E|P"], ["release",k], ["sleep",us], ["probe","O|E|P"]
 	Script [][]interface{} `json:"script,omitempty"`
+	// burst: Burst callers are forwarded while the breaker is closed, spin inside the downstream handler and
+	// are let go at the same instant to fail (outcome BurstOut, E or P); afterwards one probe call. Repeated
+	// Rounds times on fresh breakers; the observation counts the rounds in which the probe was forwarded.
+	Burst    int    `json:"burst,omitempty"`
+	BurstOut string `json:"burst_out,omitempty"`
+	Rounds   int    `json:"rounds,omitempty"`
 }
 
 type c20Step struct {
@@ -33,8 +41,8 @@ type c20Step struct {
 	K       int    `json:"k"`
 	B       int64  `json:"b"`
 	A       int64  `json:"a"`
-	Entered bool   `json:"entered"`       // the downstream handler was reached (call forwarded and now held)
-	R       string `json:"r,omitempty"`   // result letter once the call has returned
+	Entered bool   `json:"entered"`     // the downstream handler was reached (call forwarded and now held)
+	R       string `json:"r,omitempty"` // result letter once the call has returned
 	Msg     string `json:"msg,omitempty"`
 }
 
@@ -47,9 +55,12 @@ type c20Call struct {
 }
 
 type c20Obs struct {
-	ID    int       `json:"id"`
-	Calls []c20Call `json:"calls"`
-	Steps []c20Step `json:"steps,omitempty"`
+	BurstForwarded int       `json:"burst_forwarded,omitempty"`
+	BurstRejected  int       `json:"burst_rejected,omitempty"`
+	BurstOther     int       `json:"burst_other,omitempty"`
+	ID             int       `json:"id"`
+	Calls          []c20Call `json:"calls"`
+	Steps          []c20Step `json:"steps,omitempty"`
 }
 
 func c20Run(line []byte, out *json.Encoder) error {
@@ -68,6 +79,10 @@ func c20Run(line []byte, out *json.Encoder) error {
 				func(ctx context.Context, name string, args []interface{}) ([]interface{}, error) {
 					return []interface{}{"mock"}, nil
 				}))
+		}
+		if c.Burst > 0 {
+			obs.BurstForwarded, obs.BurstRejected, obs.BurstOther = runBurst(c, opts)
+			return out.Encode(&obs)
 		}
 		cb := circuitbreaker.New(opts...)
 		if len(c.Script) > 0 {
@@ -256,6 +271,66 @@ func runScript(c c20Case, cb *circuitbreaker.CircuitBreaker) []c20Step {
 		steps = append(steps, step)
 	}
 	return steps
+}
+
+// runBurst: see c20Case.Burst.
+func runBurst(c c20Case, opts []circuitbreaker.Option) (forwarded, rejected, other int) {
+	for round := 0; round < c.Rounds; round++ {
+		cb := circuitbreaker.New(opts...)
+		client := core.NewClient("mock://c20")
+		var gate int32
+		var inside int32
+		probe := int32(0)
+		scripted := func(ctx context.Context, request []byte, next core.NextIOHandler) ([]byte, error) {
+			if atomic.LoadInt32(&probe) == 1 {
+				atomic.AddInt32(&probe, 1) // the probe reached downstream
+				enc := new(io.Encoder).Simple(true)
+				enc.WriteTag(io.TagResult)
+				enc.Encode("ok")
+				enc.WriteTag(io.TagEnd)
+				return enc.Bytes(), nil
+			}
+			atomic.AddInt32(&inside, 1)
+			for atomic.LoadInt32(&gate) == 0 {
+			}
+			if c.BurstOut == "P" {
+				panic("boom")
+			}
+			return nil, errors.New("down")
+		}
+		client.Use(cb)
+		client.Use(core.IOHandler(scripted))
+		var wg sync.WaitGroup
+		for i := 0; i < c.Burst; i++ {
+			wg.Add(1)
+			go func() {
+				defer wg.Done()
+				_, _ = client.Invoke("f", nil)
+			}()
+		}
+		deadline := time.Now().Add(5 * time.Second)
+		for atomic.LoadInt32(&inside) < int32(c.Burst) && time.Now().Before(deadline) {
+			runtime.Gosched()
+		}
+		entered := atomic.LoadInt32(&inside) == int32(c.Burst)
+		atomic.StoreInt32(&gate, 1)
+		wg.Wait()
+		if !entered {
+			other++
+			continue
+		}
+		atomic.StoreInt32(&probe, 1)
+		_, err := client.Invoke("f", nil)
+		switch {
+		case atomic.LoadInt32(&probe) == 2:
+			forwarded++
+		case err == circuitbreaker.ErrBreaker || (c.Mock && err == nil):
+			rejected++
+		default:
+			other++
+		}
+	}
+	return
 }
 
 func isPanicErr(err error) bool {
